@@ -780,3 +780,24 @@ func genHugeACLScenario(t *rapid.T) *Scenario {
 	}
 	return sc
 }
+
+// genHugeOnceScenario: a ONCE / POLL subscriber whose reader is slower than the walk over a target of 9000-70000
+// leaves (the whole answer queues up behind it), reads a few thousand responses, then reads freely; a second
+// round for POLL. The cache does not change: every round is exactly the matching set, then one sync response.
+func genHugeOnceScenario(t *rapid.T) *Scenario {
+	sc := &Scenario{Targets: 1, TimeoutSec: 0}
+	sc.EventDriven = rapid.Bool().Draw(t, "eventdriven")
+	n := rapid.SampledFrom([]int{9000, 12000, 16385, 33000, 65537}).Draw(t, "leaves")
+	sc.Steps = append(sc.Steps, Step{Kind: "w", W: &WOp{Kind: "noti", T: 0, Bulk: &Bulk{Start: 0, N: n, V: 1}}})
+	mode := rapid.SampledFrom([]string{"once", "poll"}).Draw(t, "mode")
+	sc.Subs = append(sc.Subs, SubSpec{Mode: mode, Target: rapid.IntRange(-1, 0).Draw(t, "target"), Gated: true, Paths: []PathSpec{{}}})
+	sc.Steps = append(sc.Steps, Step{Kind: "start", Sub: 0})
+	for i, k := 0, rapid.IntRange(1, 3).Draw(t, "sips"); i < k; i++ {
+		sc.Steps = append(sc.Steps, Step{Kind: "grant", Sub: 0, N: rapid.SampledFrom([]int{1, 100, 4095, 4096, 4097, 5000, 8192, 9000}).Draw(t, "sip")})
+	}
+	sc.Steps = append(sc.Steps, Step{Kind: "free", Sub: 0}, Step{Kind: "drain"})
+	if mode == "poll" {
+		sc.Steps = append(sc.Steps, Step{Kind: "poll", Sub: 0}, Step{Kind: "drain"})
+	}
+	return sc
+}
